@@ -97,6 +97,7 @@ pub fn run(reg: &dyn Registry, ctx: &Ctx) -> Outcome {
         total.states += s.states;
         total.transitions += s.transitions;
         total.merges_checked += s.merges_checked;
+        total.unmerged_paths += s.unmerged_paths;
         total.straddles += s.straddles;
         total.tails += s.tails;
         total.half_pending_transitions += s.half_pending_transitions;
@@ -376,6 +377,7 @@ pub fn run(reg: &dyn Registry, ctx: &Ctx) -> Outcome {
     ctx.set("states", total.states);
     ctx.set("transitions", total.transitions);
     ctx.set("merges_checked", total.merges_checked);
+    ctx.set("unmerged_paths_info", total.unmerged_paths);
     ctx.set("refill_straddles", total.straddles);
     ctx.set("tail_transitions", total.tails);
     ctx.set("half_pending_transitions", total.half_pending_transitions);
